@@ -194,8 +194,9 @@ PATTERNS = ["empty", "diag", "dense", "sparse05", "sparse30", "sparse70", "empty
             "fullrow", "nodiag", "isolated"]
 
 
-def gen_pixels(rng, n, symm=True, pattern=None, values="int", vmax=50):
-    """Return {(i,j): v}; symmetric-upper keeps i<=j."""
+def gen_pixels(rng, n, symm=True, pattern=None, values="int", vmax=50, zeros=0.0):
+    """Return {(i,j): v}; symmetric-upper keeps i<=j. zeros: fraction of stored pixels whose value is 0
+    (explicitly stored zero counts are valid records and must be kept like any other)."""
     if pattern is None:
         pattern = PATTERNS[int(rng.integers(len(PATTERNS)))]
     M = np.zeros((n, n), dtype=bool)
@@ -238,6 +239,8 @@ def gen_pixels(rng, n, symm=True, pattern=None, values="int", vmax=50):
         if symm and i > j:
             continue
         P[(i, j)] = gen_value(rng, values, vmax)
+        if zeros and rng.random() < zeros:
+            P[(i, j)] = 0 if values != "dyadic" else 0.0
     return P
 
 
